@@ -376,6 +376,30 @@ pub fn roundtrip<B: Backend>(rec: &mut Recorder, st: &mut Stats, cfg: &Cfg) {
     }
 }
 
+/// the same bit flipped in two tag bytes, and permutations of the tag bytes (a checksum-style comparison would accept them)
+fn tag_variants(blob: &[u8], t0: usize, tlen: usize) -> Vec<(Vec<u8>, Value)> {
+    let mut v = Vec::new();
+    if ONLY_RELABEL.with(|c| *c.borrow()) || blob.len() < t0 + tlen || tlen < 2 {
+        return v;
+    }
+    for b in 0..8u8 {
+        for (i, j) in [(0usize, 1usize), (0, tlen - 1), (tlen / 2, tlen / 2 + 1)] {
+            let mut q = blob.to_vec();
+            q[t0 + i] ^= 1 << b;
+            q[t0 + j] ^= 1 << b;
+            v.push((q, json!({"cls":"tag-two-bytes-same-bit","bit":b,"i":i,"j":j})));
+        }
+    }
+    let mut q = blob.to_vec();
+    q[t0..t0 + tlen].reverse();
+    v.push((q, json!({"cls":"tag-permuted","how":"reversed"})));
+    let mut q = blob.to_vec();
+    q[t0..t0 + tlen].rotate_left(1);
+    v.push((q, json!({"cls":"tag-permuted","how":"rotated"})));
+    v.retain(|(q, _)| q != blob);
+    v
+}
+
 fn flips(blob: &[u8], thorough: bool, rng: &mut Prng, edges: &[usize]) -> Vec<(usize, u8)> {
     let mut v = Vec::new();
     if ONLY_RELABEL.with(|c| *c.borrow()) {
@@ -411,6 +435,9 @@ pub fn tamper<B: Backend>(rec: &mut Recorder, st: &mut Stats, cfg: &Cfg) {
             let mut q = blob.clone();
             q[i] ^= 1 << b;
             pie_unwrap::<B, Local>(rec, st, &q, with, json!({"cls":"bitflip","pos":i,"bit":b}));
+        }
+        for (q, note) in tag_variants(&blob, 0, t(B::VER)) {
+            pie_unwrap::<B, Local>(rec, st, &q, with, note);
         }
         for n in 0..(if only_relabel { 0 } else { blob.len() }) {
             pie_unwrap::<B, Local>(rec, st, &blob[..n], with, json!({"cls":"truncate","to":n}));
@@ -462,6 +489,9 @@ pub fn tamper<B: Backend>(rec: &mut Recorder, st: &mut Stats, cfg: &Cfg) {
             q[i] ^= 1 << b;
             pw_unwrap::<B, Local>(rec, st, &q, pass, json!({"cls":"bitflip","pos":i,"bit":b}));
         }
+        for (q, note) in tag_variants(&blob, blob.len() - t(B::VER), t(B::VER)) {
+            pw_unwrap::<B, Local>(rec, st, &q, pass, note);
+        }
         for n in 0..(if only_relabel { 0 } else { blob.len() }) {
             pw_unwrap::<B, Local>(rec, st, &blob[..n], pass, json!({"cls":"truncate","to":n}));
         }
@@ -503,6 +533,9 @@ pub fn tamper<B: Backend>(rec: &mut Recorder, st: &mut Stats, cfg: &Cfg) {
             let mut q = blob.clone();
             q[i] ^= 1 << b;
             pke_unseal::<B>(rec, st, &q, &r0.secret, json!({"cls":"bitflip","pos":i,"bit":b}));
+        }
+        for (q, note) in tag_variants(&blob, 0, t(B::VER)) {
+            pke_unseal::<B>(rec, st, &q, &r0.secret, note);
         }
         for n in (0..(if only_relabel { 0 } else { blob.len() })).step_by(step) {
             pke_unseal::<B>(rec, st, &blob[..n], &r0.secret, json!({"cls":"truncate","to":n}));
